@@ -297,7 +297,9 @@ class Ctx:
         self.inconclusive: List[str] = []
         self._fresh = 0
         self._divcache: Dict[Any, Any] = {}
-        self.max_failures = 25
+        self.sigf: Any = None
+        self.failure_counts: Dict[str, int] = {}
+        self.max_failures = 50
         self.sample_paths: List[Any] = []
 
     # ---- symbol creation ------------------------------------------------------
@@ -532,7 +534,13 @@ class Ctx:
                 )
         else:
             assignment = dict(self.assignment)
-        if len(self.failures) < self.max_failures:
+        rec = Failure(label=label, case=self.case, info={k: _show(v) for k, v in info.items()})
+        try:
+            key = self.sigf(rec) if self.sigf is not None else label
+        except Exception:  # noqa: BLE001
+            key = label
+        self.failure_counts[key] = self.failure_counts.get(key, 0) + 1
+        if self.failure_counts[key] == 1 and len(self.failures) < self.max_failures:
             self.failures.append(
                 Failure(
                     label=label,
@@ -599,11 +607,14 @@ def explore(
     case: Any,
     max_paths: int = 200000,
     budget_s: Optional[float] = None,
+    sigf: Any = None,
 ) -> Dict[str, Any]:
-    """Explore every feasible path of harness(ctx, case).  Returns a plain dict."""
+    """Explore every feasible path of harness(ctx, case).  Returns a plain dict.
+    Failures are kept once per signature (sigf), so a recurring known finding does not end the exploration."""
     global _CTX
     c = Ctx("sym", max_paths=max_paths)
     c.case = case
+    c.sigf = sigf
     t0 = time.time()
     prev = _CTX
     _CTX = c
@@ -627,7 +638,7 @@ def explore(
                 c.inconclusive.append("exception escaped the harness:\n" + traceback.format_exc()[-1500:])
                 break
             if len(c.failures) >= c.max_failures:
-                c.inconclusive.append("stopped after max_failures")
+                c.inconclusive.append("stopped after max_failures distinct failure signatures")
                 break
             if not c.backtrack():
                 exhausted = True
@@ -652,6 +663,7 @@ def explore(
         "wall_s": round(time.time() - t0, 3),
         "max_depth": c.max_depth,
         "failures": [dict(f) for f in c.failures],
+        "failure_counts": dict(c.failure_counts),
         "covers": dict(c.covers),
         "inconclusive": list(c.inconclusive),
         "samples": c.sample_paths,
